@@ -68,7 +68,7 @@ def run(ctx):
     rng = ctx.rng
     ctx.extra["rule"] = ("seeded histories of 3-10 events (forward, calibrate, freeze, freeze again, to(cpu), deepcopy) on Linear / Conv2d / LayerNorm stacks, weights in all six qtypes, activations None/qint8/qfloat8, "
                          "dtype float32/float16/bfloat16. distinct = (model kind, qtypes, dtype, event sequence); non-trivial = history containing a freeze")
-    n = 120 if not ctx.thorough else 1200
+    n = 120 if not ctx.thorough else 4000
     slines, sexpect, smeta = [], [], []
     for _ in range(n):
         dt = rng.choice([torch.float32, torch.float16, torch.bfloat16])
